@@ -490,6 +490,10 @@ func vScenarioC12(rc *runCtx) {
 		return
 	}
 	tp := rc.tape
+	if rc.param("relayhs", "") != "1" && tp.Bool("c12.cancelrelay", 50) {
+		vC12CancelThroughRelay(rc)
+		return
+	}
 	cfg, o, _ := vSmallXfer(rc, []int{2, 5})
 	// campaign: a server that first announces an enormous buffer size (what the receiver's own chunk-size bound
 	// is derived from) and then sends data chunks with enormous length fields
